@@ -1,3 +1,297 @@
-pub fn run(_cli: common::Cli) -> ! {
-    common::machinery("not built yet")
+//! C02: authentication is skipped only for a valid, unexpired, same-IP signed cookie.
+use crate::sim::*;
+use crate::util::*;
+use common::refs::codec::Pkt;
+use common::{Cli, Report, Violation, par_for};
+use serde::{Deserialize, Serialize};
+use serde_json::{Value, json};
+use std::sync::atomic::{AtomicU64, Ordering};
+
+const CK_NAME: &str = "Cookie_Holder";
+const CK_UUID: u128 = 0x0987_9557_e479_45a9_b434_a56377674627;
+const V_NAME: &str = "Vouched";
+const V_UUID: u128 = 0x0123_4567_89ab_4cde_8f01_2345_6789_abcd;
+const CLIENT: &str = "198.51.100.7:40123";
+
+#[derive(Clone, Debug, Serialize, Deserialize, PartialEq)]
+pub struct Spec {
+    intent: i32,
+    /// configured secret (hex) or null
+    secret_hex: Option<String>,
+    /// absent | empty | valid | truncate | bitflip | other-secret | ip | age | body | client-v6
+    kind: String,
+    n: i64,
+    /// expiry configured on the connection
+    expiry: u64,
+    text: String,
+}
+
+fn ck_props() -> Vec<Prop> {
+    vec![Prop { name: "textures".into(), value: "dGV4".into(), signature: Some("c2ln".into()) }]
+}
+
+fn secret(s: &Spec) -> Option<Vec<u8>> {
+    s.secret_hex.as_ref().map(|h| common::unhex(h))
+}
+
+/// Builds the cookie payload; returns (payload, reference verdict: Some(true)=must be accepted,
+/// Some(false)=must authenticate, None=robustness only)
+fn cookie(s: &Spec, now: u64) -> (Option<Vec<u8>>, Option<bool>) {
+    let sec = secret(s).unwrap_or_default();
+    let body = |ts: u64, addr: &str| auth_cookie_body(ts, addr, CK_NAME, CK_UUID, Some("t-old"), &ck_props());
+    let fresh = sign(&body(now - 5, CLIENT), &sec);
+    match s.kind.as_str() {
+        "absent" => (None, Some(false)),
+        "empty" => (Some(vec![]), Some(false)),
+        "valid" => (Some(fresh), Some(true)),
+        "truncate" => {
+            let n = (s.n as usize).min(fresh.len());
+            (Some(fresh[..n].to_vec()), Some(n == fresh.len()))
+        }
+        "bitflip" => {
+            let mut c = fresh;
+            let bit = s.n as usize;
+            if bit / 8 >= c.len() {
+                return (Some(c), Some(true));
+            }
+            c[bit / 8] ^= 1 << (bit % 8);
+            (Some(c), Some(false))
+        }
+        "other-secret" => {
+            let mut other = sec.clone();
+            other.push(b'x');
+            (Some(sign(&body(now - 5, CLIENT), &other)), Some(false))
+        }
+        "ip" => {
+            let same_ip = s.text.rsplit_once(':').map(|(ip, _)| ip) == CLIENT.rsplit_once(':').map(|(ip, _)| ip);
+            (Some(sign(&body(now - 5, &s.text), &sec)), Some(same_ip))
+        }
+        "age" => {
+            // s.n = age in seconds (negative = timestamp in the future)
+            let ts = (now as i64 - s.n) as u64;
+            // accepted iff ts + expiry >= now  <=>  age <= expiry
+            (Some(sign(&body(ts, CLIENT), &sec)), Some(s.n <= s.expiry as i64))
+        }
+        "body" => {
+            let (bytes, verdict): (Vec<u8>, Option<bool>) = match s.text.as_str() {
+                "not-json" => (b"this is not json at all \xff\xfe".to_vec(), Some(false)),
+                "empty-body" => (vec![], Some(false)),
+                "array" => (b"[1,2,3]".to_vec(), Some(false)),
+                "number" => (b"42".to_vec(), Some(false)),
+                "string" => (b"\"cookie\"".to_vec(), Some(false)),
+                "null" => (b"null".to_vec(), Some(false)),
+                "truncated-json" => {
+                    let b = body(now - 5, CLIENT);
+                    (b[..b.len() - 7].to_vec(), Some(false))
+                }
+                "missing-user-name" => {
+                    let mut v: Value = serde_json::from_slice(&body(now - 5, CLIENT)).unwrap();
+                    v.as_object_mut().unwrap().remove("user_name");
+                    (serde_json::to_vec(&v).unwrap(), None)
+                }
+                "missing-extra" => {
+                    let mut v: Value = serde_json::from_slice(&body(now - 5, CLIENT)).unwrap();
+                    v.as_object_mut().unwrap().remove("extra");
+                    (serde_json::to_vec(&v).unwrap(), None)
+                }
+                "extra-field" => {
+                    let mut v: Value = serde_json::from_slice(&body(now - 5, CLIENT)).unwrap();
+                    v.as_object_mut().unwrap().insert("unknown_field".into(), json!(1));
+                    (serde_json::to_vec(&v).unwrap(), None)
+                }
+                other => common::machinery(&format!("unknown body kind {other}")),
+            };
+            (Some(sign(&bytes, &sec)), verdict)
+        }
+        other => common::machinery(&format!("unknown cookie kind {other}")),
+    }
+}
+
+fn build(s: &Spec, now: u64) -> (Case, Option<bool>) {
+    let mut case = Case::default();
+    case.cfg.auth_secret = secret(s);
+    case.cfg.expiry = s.expiry;
+    case.cfg.client_addr = CLIENT.parse().unwrap();
+    let asked = s.intent == 3 && s.secret_hex.is_some();
+    let (payload, verdict) = if asked { cookie(s, now) } else { (None, Some(false)) };
+    let login = Login { intent: s.intent, auth_cookie: asked.then_some(payload), ..Default::default() };
+    case.script = login.steps();
+    case.adapters.auth = AuthPlan::Profile { name: V_NAME.into(), uuid: V_UUID, props: vec![] };
+    case.horizon_ms = 60_000;
+    (case, verdict)
+}
+
+fn judge(s: &Spec, verdict: Option<bool>, obs: &Obs) -> Vec<(String, String)> {
+    let mut v = vec![];
+    let mut bad = |k: String, t: String| v.push((k, t));
+    if let RunResult::Panic(p) = &obs.result {
+        bad(format!("panic:{}", s.kind), p.clone());
+        return v;
+    }
+    let flag = obs.packets.iter().find_map(|(_, p)| if let Pkt::EncryptionRequest { should_authenticate, .. } = p { Some(*should_authenticate) } else { None });
+    let auth_calls = obs.calls.iter().filter(|c| c.kind() == "authenticate").count();
+    let success = obs.packets.iter().find_map(|(_, p)| if let Pkt::LoginSuccess { uuid, name, .. } = p { Some((name.clone(), *uuid)) } else { None });
+    let asked_cookie = obs.packets.iter().filter(|(_, p)| matches!(p, Pkt::LoginCookieRequest { key } if key == "passage:authentication")).count();
+    let should_ask = s.intent == 3 && s.secret_hex.is_some();
+    if (asked_cookie == 1) != should_ask || asked_cookie > 1 {
+        bad("auth-cookie-request".into(), format!("authentication cookie requested {asked_cookie} times; intent {} secret configured {}", s.intent, s.secret_hex.is_some()));
+    }
+    let class = if s.kind == "body" { format!("{}:{}", s.kind, s.text) } else if s.kind == "age" { format!("age:{}", if s.n == s.expiry as i64 { "at-expiry" } else if s.n < s.expiry as i64 { "younger" } else { "older" }) } else { s.kind.clone() };
+    let accepted_shape = flag == Some(false) && auth_calls == 0 && success == Some((CK_NAME.to_string(), CK_UUID));
+    let authenticated_shape = flag == Some(true) && auth_calls == 1 && success == Some((V_NAME.to_string(), V_UUID));
+    match verdict {
+        Some(true) => {
+            if !accepted_shape {
+                bad(format!("valid-cookie-not-honoured:{class}"), format!("flag {flag:?}, authentication calls {auth_calls}, Login Success {success:?}, result {:?}", obs.result));
+            }
+        }
+        Some(false) => {
+            if flag == Some(false) || (success.is_some() && auth_calls == 0) {
+                bad(format!("authentication-skipped:{class}"), format!("flag {flag:?}, authentication calls {auth_calls}, Login Success {success:?}"));
+            } else if !authenticated_shape {
+                bad(format!("not-told-to-authenticate:{class}"), format!("flag {flag:?}, authentication calls {auth_calls}, Login Success {success:?}, result {:?}", obs.result));
+            }
+        }
+        None => {
+            let ended = obs.result.is_err() && success.is_none() && !obs.has("Transfer") && !obs.has("StoreCookie");
+            if !(accepted_shape || authenticated_shape || ended) {
+                bad(format!("granted-without-cookie-or-service:{class}"), format!("flag {flag:?}, authentication calls {auth_calls}, Login Success {success:?}, result {:?}", obs.result));
+            }
+        }
+    }
+    // the adapter call precedes Login Success (the call log is ordered; Login Success time >= call time)
+    if let (Some(c), Some((t, _))) = (obs.calls.iter().find(|c| c.kind() == "authenticate"), obs.packets.iter().find(|(_, p)| matches!(p, Pkt::LoginSuccess { .. }))) {
+        if c.t() > *t {
+            bad("login-success-before-verdict".into(), "Login Success precedes the authentication call".into());
+        }
+    }
+    v
+}
+
+fn sp(intent: i32, secret_hex: Option<&str>, kind: &str, n: i64, expiry: u64, text: &str) -> Spec {
+    Spec { intent, secret_hex: secret_hex.map(String::from), kind: kind.into(), n, expiry, text: text.into() }
+}
+
+fn specs(cookie_len: usize) -> Vec<Spec> {
+    let k = common::hex(b"c02-secret");
+    let k = k.as_str();
+    let mut v = vec![];
+    // no cookie branch at all
+    for intent in [2, 3] {
+        for sec in [None, Some(k)] {
+            for kind in ["absent", "valid"] {
+                if intent == 3 && sec.is_some() {
+                    continue;
+                }
+                v.push(sp(intent, sec, kind, 0, 21_600, ""));
+            }
+        }
+    }
+    // transfer + secret
+    for kind in ["absent", "empty", "valid", "other-secret"] {
+        v.push(sp(3, Some(k), kind, 0, 21_600, ""));
+    }
+    for n in 0..=cookie_len {
+        v.push(sp(3, Some(k), "truncate", n as i64, 21_600, ""));
+    }
+    for bit in 0..cookie_len * 8 {
+        v.push(sp(3, Some(k), "bitflip", bit as i64, 21_600, ""));
+    }
+    for addr in ["198.51.100.8:40123", "10.0.0.1:40123", "[2001:db8::7]:40123", "198.51.100.7:1", "198.51.100.7:65535", "[::ffff:198.51.100.8]:40123"] {
+        v.push(sp(3, Some(k), "ip", 0, 21_600, addr));
+    }
+    for expiry in [0u64, 1, 60, 21_600] {
+        let e = expiry as i64;
+        for age in [0, e - 1, e, e + 1, e + 1_000_000, -1, e - 2, e + 2] {
+            v.push(sp(3, Some(k), "age", age, expiry, ""));
+        }
+    }
+    for body in ["not-json", "empty-body", "array", "number", "string", "null", "truncated-json", "missing-user-name", "missing-extra", "extra-field"] {
+        v.push(sp(3, Some(k), "body", 0, 21_600, body));
+    }
+    // other secrets (length classes of the HMAC key)
+    for sec in [vec![], vec![b'k'], vec![7u8; 64], vec![8u8; 65], vec![9u8; 200]] {
+        let h = common::hex(&sec);
+        for kind in ["valid", "other-secret", "absent"] {
+            v.push(sp(3, Some(&h), kind, 0, 21_600, ""));
+        }
+        v.push(sp(3, Some(&h), "bitflip", 255, 21_600, ""));
+    }
+    v
+}
+
+/// Runs one spec under the clock protocol: the verdict of a boundary case only counts if the
+/// wall-clock second did not change between building the cookie and the end of the run.
+fn run_spec(s: &Spec, retries: &AtomicU64) -> (Case, Option<bool>, Obs) {
+    loop {
+        let now = wall_secs();
+        let (case, verdict) = build(s, now);
+        let obs = crate::sim::run(&case);
+        let boundary = s.kind == "age" && (s.n - s.expiry as i64).abs() <= 1;
+        if boundary && wall_secs() != now {
+            retries.fetch_add(1, Ordering::Relaxed);
+            continue;
+        }
+        return (case, verdict, obs);
+    }
+}
+
+pub fn run(cli: Cli) -> ! {
+    let rep = Report::new("C02", cli.tier, "model_checking");
+    let retries = AtomicU64::new(0);
+    if let Some(case) = cli.replay.clone() {
+        let s: Spec = serde_json::from_value(case["spec"].clone()).unwrap_or_else(|e| common::machinery(&format!("bad replay: {e}")));
+        let (_, verdict, obs) = run_spec(&s, &retries);
+        println!("spec: {}", serde_json::to_string(&s).unwrap());
+        println!("reference verdict (Some(true)=accept cookie, Some(false)=must authenticate, None=robustness): {verdict:?}");
+        println!("observed: {}", serde_json::to_string_pretty(&obs.to_json()).unwrap());
+        for (k, t) in judge(&s, verdict, &obs) {
+            rep.violation(Violation { key: k, text: t, replay: case.clone(), weight: 0 });
+        }
+        rep.set("states", json!(1));
+        rep.set("transitions", json!(obs.packets.len().max(1)));
+        rep.set("traces_validated_against_impl", json!(1));
+        rep.finish();
+    }
+    let sample_cookie = valid_cookie(b"c02-secret", 5, CLIENT, CK_NAME, CK_UUID, &ck_props());
+    let all = specs(sample_cookie.len());
+    let accepted = AtomicU64::new(0);
+    let rejected = AtomicU64::new(0);
+    let transitions = AtomicU64::new(0);
+    par_for(all.len(), |i| {
+        let s = &all[i];
+        let (_, verdict, obs) = run_spec(s, &retries);
+        transitions.fetch_add(obs.packets.len() as u64 + obs.calls.len() as u64 + 1, Ordering::Relaxed);
+        match obs.packets.iter().find_map(|(_, p)| if let Pkt::EncryptionRequest { should_authenticate, .. } = p { Some(*should_authenticate) } else { None }) {
+            Some(false) => accepted.fetch_add(1, Ordering::Relaxed),
+            _ => rejected.fetch_add(1, Ordering::Relaxed),
+        };
+        for (k, t) in judge(s, verdict, &obs) {
+            let w = match s.kind.as_str() {
+                "bitflip" | "truncate" => 1000 + s.n as u64,
+                _ => i as u64 % 1000,
+            };
+            rep.violation(Violation { key: k, text: format!("{t}; spec {}", serde_json::to_string(s).unwrap()), replay: json!({"spec": s}), weight: w });
+        }
+    });
+    rep.require("cookies accepted", accepted.load(Ordering::Relaxed), 10);
+    rep.require("cookies rejected", rejected.load(Ordering::Relaxed), 100);
+    rep.set("states", json!(all.len()));
+    rep.set("transitions", json!(transitions.load(Ordering::Relaxed)));
+    rep.set("traces_validated_against_impl", json!(all.len()));
+    rep.set("evaluations", json!(all.len()));
+    rep.set("distinct_nontrivial", json!(all.len()));
+    rep.set("cookies_accepted", json!(accepted.load(Ordering::Relaxed)));
+    rep.set("told_to_authenticate", json!(rejected.load(Ordering::Relaxed)));
+    rep.set("clock_retries", json!(retries.load(Ordering::Relaxed)));
+    rep.set("cookie_length_bytes", json!(sample_cookie.len()));
+    rep.set("exhaustive", json!(true));
+    rep.set("rule", json!("one connection per cookie variant: every truncation length, every single-bit flip of tag and body, other secret, 6 addresses, ages {0, e-2, e-1, e, e+1, e+2, e+10^6, -1} x expiry {0,1,60,21600}, 10 signed bodies that are not a cookie, 5 secret length classes, plus intent x secret combinations without a cookie branch. Every spec is distinct."));
+    rep.sample(json!({"spec": all[0]}));
+    rep.sample(json!({"spec": sp(3, Some("6b"), "age", 60, 60, ""), "expect": "accepted (age == expiry) if the wall-clock second does not tick during the run, else repeated"}));
+    rep.sample(json!({"spec": sp(3, Some("6b"), "bitflip", 255, 21600, ""), "expect": "must authenticate"}));
+    rep.assume("wall clock: each boundary case is repeated if the second ticked between building the cookie and the end of the (sub-millisecond) run");
+    rep.assume("'any IP' is six representative addresses; multi-bit forgeries are the HMAC construction's domain");
+    rep.assume("objects with a missing optional field or an unknown field are run for robustness only (no panic, nothing granted without a valid cookie or the service)");
+    rep.finish()
 }
